@@ -131,6 +131,8 @@ def draw_case(ch, ng_min=2, ng_max=6, groupless=(0, 2), classes=('Dortmund', 'UN
 
 
 def draw_x(ch, n, tag='x', kinds=('interior', 'zeros', 'trace', 'interior', 'vertex', 'nearvertex')):
+    if n == 1:
+        return np.array([1.0]), 'vertex'
     kind = ch.choice(tag + '.kind', list(kinds))
     if kind == 'vertex':
         i = ch.index(tag + '.i', n)
